@@ -713,6 +713,213 @@ def public_name_facts(snap):
     return out
 
 
+# ------------------------------------------------------------------ histories: oneshot() and the memoize_when_activated caches
+
+class _Propagates(Exception):
+    """an exception travelling up through the statements of oneshot() (symbolic walk)"""
+
+
+def _call_pair(call):
+    """`a.b.meth(args)` → ("a.b", "meth") when the arguments are exactly `(self)` or `()`, else the method is
+    written with its arguments so that nothing is silently taken for the plain call"""
+    if isinstance(call.func, ast.Attribute):
+        recv, meth = ast.unparse(call.func.value), call.func.attr
+    else:
+        recv, meth = "", ast.unparse(call.func)
+    args = [ast.unparse(a) for a in call.args] + ["%s=%s" % (k.arg, ast.unparse(k.value)) for k in call.keywords]
+    if args not in ([], ["self"]):
+        meth += "(" + ", ".join(args) + ")"
+    return (recv, meth)
+
+
+def oneshot_flow(stmts, yield_raises, consts):
+    """Symbolic walk over the statements of the generator `oneshot()`: which calls are reached BEFORE the `yield`
+    and which AFTER it, when the `yield` returns normally resp. when it raises (an exception propagates out of the
+    `with` block: it is thrown into the generator at the `yield`). try/except/else/finally, `with`, `if` over module
+    constants (POSIX, LINUX, …), `raise` and `return` are followed; the representative exception is an ordinary
+    `Exception` subclass. Anything else is recorded as ("", <source>) and has no effect in the model. Total."""
+    pre, post = [], []
+    state = {"after": False}
+
+    def emit(pair):
+        (post if state["after"] else pre).append(pair)
+
+    def catches(h):
+        if h.type is None:
+            return True
+        names = [extract.dotted(e) for e in (h.type.elts if isinstance(h.type, ast.Tuple) else [h.type])]
+        return any(n in ("Exception", "BaseException") for n in names)
+
+    def expr(v):
+        if isinstance(v, (ast.Yield, ast.YieldFrom)):
+            state["after"] = True
+            if yield_raises:
+                raise _Propagates()
+        elif isinstance(v, ast.Call):
+            emit(_call_pair(v))
+        elif isinstance(v, ast.Constant):
+            pass                                  # docstring
+        else:
+            emit(("", ast.unparse(v)))
+
+    class _Return(Exception):
+        pass
+
+    def block(body):
+        for st in body:
+            one(st)
+
+    def one(st):
+        if isinstance(st, ast.Expr):
+            expr(st.value)
+        elif isinstance(st, ast.Assign) and isinstance(st.value, (ast.Yield, ast.YieldFrom)):
+            expr(st.value)
+        elif isinstance(st, ast.Pass):
+            pass
+        elif isinstance(st, ast.Raise):
+            raise _Propagates()
+        elif isinstance(st, ast.Return):
+            raise _Return()
+        elif isinstance(st, (ast.With, ast.AsyncWith)):
+            block(st.body)
+        elif isinstance(st, ast.If):
+            t = ast.unparse(st.test)
+            neg = t.startswith("not ")
+            nm = t[4:] if neg else t
+            if nm in consts and isinstance(consts[nm], bool):
+                block(st.body if (consts[nm] != neg) else st.orelse)
+            else:
+                emit(("", "if " + t))             # a condition the walk cannot decide: the branch is NOT followed
+        elif isinstance(st, ast.Try):
+            pending = None
+            try:
+                try:
+                    block(st.body)
+                except _Propagates as e:
+                    hs = [h for h in st.handlers if catches(h)]
+                    if not hs:
+                        raise
+                    block(hs[0].body)             # may re-raise (`raise`) → _Propagates again
+                else:
+                    block(st.orelse)
+            except (_Propagates, _Return) as e:
+                pending = e
+            block(st.finalbody)
+            if pending is not None:
+                raise pending
+        else:
+            emit(("", ast.unparse(st).split("\n")[0]))
+
+    try:
+        block(stmts)
+    except (_Propagates, _Return):
+        pass
+    return pre, post
+
+
+def oneshot_facts(snap):
+    """Process.oneshot() of psutil/__init__.py: the guard of the nested no-op branch, and the calls made on entry,
+    on a normal exit and on an exit by exception of the branch that really opens a block."""
+    tree = extract.parse_module(snap, "__init__.py")
+    fn = extract.find_def(tree, "oneshot", cls="Process")
+    ps_mod = snap_psutil(snap)
+    consts = {k: getattr(ps_mod, k) for k in ("POSIX", "LINUX", "WINDOWS", "MACOS", "OSX", "FREEBSD", "OPENBSD", "NETBSD",
+                                              "BSD", "SUNOS", "AIX") if isinstance(getattr(ps_mod, k, None), bool)}
+
+    def has_yield(nodes):
+        return any(isinstance(n, (ast.Yield, ast.YieldFrom)) for b in nodes for n in ast.walk(b))
+    # the `if` that separates "a block is already open on this object" from "open one": both branches yield
+    split = [n for n in ast.walk(fn) if isinstance(n, ast.If) and has_yield(n.body) and has_yield(n.orelse)]
+    if len(split) == 1:
+        test = ast.unparse(split[0].test)
+        npre, npost = oneshot_flow(split[0].body, False, consts)
+        nested_body = ["%s.%s" % c if c[0] else c[1] for c in npre] + ["yield"] + ["%s.%s" % c if c[0] else c[1] for c in npost]
+        real = split[0].orelse
+    else:
+        test, nested_body, real = "<no nested-entry guard>", [], fn.body
+    enter, leave = oneshot_flow(real, False, consts)
+    enter_x, leave_exc = oneshot_flow(real, True, consts)
+    dec = "contextlib.contextmanager" in extract.decorators(fn) or "contextmanager" in extract.decorators(fn)
+    return {"test": test, "nested_body": nested_body, "enter": enter, "leave": leave, "leave_exc": leave_exc,
+            "contextmanager": dec}
+
+
+def memoized_methods(tree, cls):
+    """names of the methods of class `cls` decorated with @memoize_when_activated (also those defined under an
+    `if POSIX:` inside the class body)"""
+    for n in tree.body:
+        if isinstance(n, ast.ClassDef) and n.name == cls:
+            return [f.name for f in ast.walk(n) if isinstance(f, (ast.FunctionDef, ast.AsyncFunctionDef))
+                    and "memoize_when_activated" in extract.decorators(f)]
+    raise NotRecognised("class %s not found" % cls)
+
+
+def platform_oneshot_calls(tree, which):
+    """the calls in the body of _pslinux.Process.oneshot_enter / oneshot_exit (straight-line walk)"""
+    fn = _proc_fn(tree, which)
+    pre, post = oneshot_flow(fn.body, False, {})
+    return pre + post
+
+
+def memo_slot_sources(snap):
+    """_common.memoize_when_activated: the statements of cache_activate / cache_deactivate (what happens to the
+    `_cache` slot of the object), and how the wrapper reads the slot"""
+    tree = extract.parse_module(snap, "_common.py")
+    fn = extract.find_def(tree, "memoize_when_activated")
+    out = {}
+    for inner in ("cache_activate", "cache_deactivate", "wrapper"):
+        defs = [n for n in fn.body if isinstance(n, ast.FunctionDef) and n.name == inner]
+        if len(defs) != 1:
+            out[inner] = NotRecognised("memoize_when_activated: inner function %s" % inner)
+            continue
+        body = [st for st in defs[0].body if not (isinstance(st, ast.Expr) and isinstance(st.value, ast.Constant))]
+        out[inner] = [ast.unparse(st) for st in body]
+    return out
+
+
+def _pairs(lst):
+    return extract.lean_list([extract.lean_pair(extract.lean_str(a), extract.lean_str(b)) for a, b in lst])
+
+
+def history_facts(snap, F, tree):
+    memo = {}
+
+    def once(k, fn):
+        if k not in memo:
+            memo[k] = fn()
+        return memo[k]
+    of = lambda: once("of", lambda: oneshot_facts(snap))
+    ms = lambda: once("ms", lambda: memo_slot_sources(snap))
+    S, L = extract.lean_str, extract.lean_list
+    F.try_add("oneshotNestedTest", "String", lambda: S(of()["test"]),
+              "psutil/__init__.py Process.oneshot(): the condition under which entering a block does nothing but `yield`")
+    F.try_add("oneshotNestedBody", "List String", lambda: L([S(x) for x in of()["nested_body"]]),
+              "Process.oneshot(): what that branch does")
+    F.try_add("oneshotIsContextManager", "Bool", lambda: extract.lean_bool(of()["contextmanager"]),
+              "Process.oneshot is decorated with @contextlib.contextmanager")
+    F.try_add("oneshotEnter", "List (String × String)", lambda: _pairs(of()["enter"]),
+              "Process.oneshot(): the (receiver, method) calls made before the `yield` of the branch that opens a block")
+    F.try_add("oneshotLeave", "List (String × String)", lambda: _pairs(of()["leave"]),
+              "Process.oneshot(): the calls reached after the `yield` RETURNED (the block was left normally)")
+    F.try_add("oneshotLeaveExc", "List (String × String)", lambda: _pairs(of()["leave_exc"]),
+              "Process.oneshot(): the calls reached after the `yield` RAISED (an exception propagates out of the block)")
+    F.try_add("feMemoized", "List String",
+              lambda: L([S(x) for x in memoized_methods(extract.parse_module(snap, "__init__.py"), "Process")]),
+              "psutil/__init__.py Process: the methods decorated with @memoize_when_activated")
+    F.try_add("plMemoized", "List String", lambda: L([S(x) for x in memoized_methods(tree, "Process")]),
+              "psutil/_pslinux.py Process: the methods decorated with @memoize_when_activated")
+    F.try_add("plEnterCalls", "List (String × String)", lambda: _pairs(platform_oneshot_calls(tree, "oneshot_enter")),
+              "_pslinux.Process.oneshot_enter(): its calls")
+    F.try_add("plExitCalls", "List (String × String)", lambda: _pairs(platform_oneshot_calls(tree, "oneshot_exit")),
+              "_pslinux.Process.oneshot_exit(): its calls")
+    F.try_add("memoActivateSrc", "List String", lambda: L([S(x) for x in _val(ms()["cache_activate"])]),
+              "_common.memoize_when_activated.cache_activate: its statements (a FRESH dict goes into the `_cache` slot)")
+    F.try_add("memoDeactivateSrc", "List String", lambda: L([S(x) for x in _val(ms()["cache_deactivate"])]),
+              "_common.memoize_when_activated.cache_deactivate: its statements (the `_cache` slot is deleted)")
+    F.try_add("memoWrapperSrc", "List String", lambda: L([S(x) for x in _val(ms()["wrapper"])]),
+              "_common.memoize_when_activated.wrapper: its statements (no slot: run undecorated; slot of this thread: look up / store on a miss)")
+
+
 def facts(snap, F):
     tree = extract.parse_module(snap, "_pslinux.py")
     memo = {}
@@ -836,6 +1043,7 @@ def facts(snap, F):
         return f
     F.try_add("pcputimesFields", "List String", fields("pcputimes"), "pcputimes._fields")
     F.try_add("pthreadFields", "List String", fields("pthread"), "pthread._fields")
+    history_facts(snap, F, tree)
 
 
 _PS = {}
